@@ -22,6 +22,17 @@ func (env *Zlisp) verifStep() error {
 	return nil
 }
 
+// VerifReplEnvHook, when non-nil, is shown the interpreter that
+// ReplMain has built and configured from the command-line flags,
+// before it evaluates anything.
+var VerifReplEnvHook func(env *Zlisp)
+
+func verifReplEnv(env *Zlisp) {
+	if VerifReplEnvHook != nil {
+		VerifReplEnvHook(env)
+	}
+}
+
 // VerifDepthInfo is a read-only snapshot of the VM's control state.
 type VerifDepthInfo struct {
 	Data      int
